@@ -16,8 +16,8 @@ CASES = [
       ("    _set_state_field(state, \"graph\", {\"nodes\": {}, \"edges\": {}, \"meta\": dict(empty_meta)})\n", "    import copy as _cp\n    _set_state_field(state, \"graph\", {\"nodes\": {}, \"edges\": {}, \"meta\": _cp.deepcopy(_EMPTY_META_TPL)})\n")], None, None),
     ("gel-meta-template-shallow", "mutant", "clematis/engine/snapshot.py", [("SCHEMA_VERSION = \"v1\"  # snapshots written going forward should include this\n", "SCHEMA_VERSION = \"v1\"  # snapshots written going forward should include this\n_EMPTY_META_TPL = {\"schema\": \"v1.1\", \"merges\": [], \"splits\": [], \"promotions\": [], \"concept_nodes_count\": 0, \"edges_count\": 0}\n"),
       ("    _set_state_field(state, \"graph\", {\"nodes\": {}, \"edges\": {}, \"meta\": dict(empty_meta)})\n", "    _set_state_field(state, \"graph\", {\"nodes\": {}, \"edges\": {}, \"meta\": dict(_EMPTY_META_TPL)})\n")], None, "C01.HIST"),
-    ("match-keywords-default-accumulator", "mutant", T1, [("def _match_keywords(text: str, labels: List[Tuple[str, str]]) -> Dict[str, float]:\n", "def _match_keywords(text: str, labels: List[Tuple[str, str]], seeds: Dict[str, float] = {}) -> Dict[str, float]:\n"), ("    t = text.lower()\n    seeds: Dict[str, float] = {}\n", "    t = text.lower()\n")], None, "C01.HIST"),
-    ("match-keywords-default-none", "twin", T1, [("def _match_keywords(text: str, labels: List[Tuple[str, str]]) -> Dict[str, float]:\n", "def _match_keywords(text: str, labels: List[Tuple[str, str]], seeds: Optional[Dict[str, float]] = None) -> Dict[str, float]:\n"), ("    t = text.lower()\n    seeds: Dict[str, float] = {}\n", "    t = text.lower()\n    seeds = {} if seeds is None else seeds\n")], None, None),
+    ("match-keywords-default-accumulator", "mutant", T1, [("def _match_keywords(text: str, labels: List[Tuple[str, str]]) -> Dict[str, float]:\n", "def _match_keywords(text: str, labels: List[Tuple[str, str]], seeds: Dict[str, float] = {}) -> Dict[str, float]:\n"), ("    t = text.casefold()\n    seeds: Dict[str, float] = {}\n", "    t = text.casefold()\n")], None, "C01.HIST"),
+    ("match-keywords-default-none", "twin", T1, [("def _match_keywords(text: str, labels: List[Tuple[str, str]]) -> Dict[str, float]:\n", "def _match_keywords(text: str, labels: List[Tuple[str, str]], seeds: Optional[Dict[str, float]] = None) -> Dict[str, float]:\n"), ("    t = text.casefold()\n    seeds: Dict[str, float] = {}\n", "    t = text.casefold()\n    seeds = {} if seeds is None else seeds\n")], None, None),
     ("tick-prunes-by-key-set-rebuild", "mutant", "clematis/engine/gel.py", "    for key in to_delete:\n        edges.pop(key, None)\n", "    if to_delete:\n        edges = {key: edges[key] for key in edges.keys() - to_delete}\n        gstore[\"edges\"] = edges\n", "C01.ORDER"),
     ("tick-prunes-by-ordered-rebuild", "twin", "clematis/engine/gel.py", "    for key in to_delete:\n        edges.pop(key, None)\n", "    if to_delete:\n        gone = set(to_delete)\n        edges = {key: rec for key, rec in edges.items() if key not in gone}\n        gstore[\"edges\"] = edges\n", None),
     ("tick-prunes-by-sorted-key-set", "twin", "clematis/engine/gel.py", "    for key in to_delete:\n        edges.pop(key, None)\n", "    for key in sorted(set(to_delete)):\n        edges.pop(key, None)\n", None),
